@@ -172,6 +172,32 @@ def _build_locked(variant, repo, out, cc, cxx, cflags, ldflags, wrappers, quiet)
     return exe
 
 
+def build_plain_cli(repo=None):
+    """The real tool, uninstrumented and without any wrapper (for the simulator-vs-reality cross-check)."""
+    repo = os.path.abspath(repo or os.environ.get("VERIF_REPO", "/repo"))
+    out = os.path.join(VERIF, "build", "plaincli")
+    os.makedirs(out, exist_ok=True)
+    inc = ["-I" + repo, "-I" + os.path.join(repo, "lib", "public"), "-I" + os.path.join(repo, "lib")]
+    if not os.path.exists(os.path.join(repo, "config.h")):
+        with open(os.path.join(out, "config.h"), "w") as f:
+            f.write(FALLBACK_CONFIG_H)
+        inc.append("-I" + out)
+    srcs = [os.path.join(repo, "lib", n) for n in sorted(os.listdir(os.path.join(repo, "lib"))) if n.endswith(".c") and n not in LIB_SKIP]
+    srcs += [os.path.join(repo, "src", n) for n in sorted(os.listdir(os.path.join(repo, "src"))) if n.endswith(".c")]
+    exe = os.path.join(out, "lha")
+    key = sha(*[read(s) for s in srcs])
+    stamp = exe + ".key"
+    if os.path.exists(exe) and os.path.exists(stamp) and read(stamp).decode() == key:
+        return exe
+    r = subprocess.run(["gcc", "-std=gnu99", "-O1", "-g"] + inc + srcs + ["-o", exe], capture_output=True, text=True)
+    if r.returncode != 0:
+        sys.stderr.write(r.stderr)
+        raise SystemExit(2)
+    with open(stamp, "w") as f:
+        f.write(key)
+    return exe
+
+
 # Sources that make up the thin threaded TSan driver (no libc wrappers).
 TSAN_SOURCES = {"util.cc", "plan.cc", "archive.cc", "gen.cc", "tsan_main.cc"}
 TSAN_ONLY = {"tsan_main.cc"}
